@@ -110,7 +110,9 @@ pub fn run_one(seed: u64) -> Result<(Vec<Viol>, u64), String> {
 pub fn run_one_x(seed: u64) -> Result<(Vec<Viol>, u64, u64), String> {
     let mut r = Rng::new(seed);
     let dir = util::fresh_dir("maxbatch");
-    let big = r.chance(1, 2); // > 1 MiB of queued data in half of the rounds
+    // queued data: a few kB / about 2 MiB / about 6 MiB in all
+    let payload_len = *r.pick(&[0usize, 2100, 2100, 6000]);
+    let big = payload_len > 0;
     let cfg = CfgSpec { max_records: Some(1060), max_size: None, read_buf: Some(4096), max_items: Some(3), capacity: None, truncate: None };
     trace::reset_acks();
     trace::begin(&dir);
@@ -163,7 +165,7 @@ pub fn run_one_x(seed: u64) -> Result<(Vec<Viol>, u64, u64), String> {
             if sent - done >= 1025 {
                 break;
             }
-            let payload = if big { format!("mb{}:{}", idx, "x".repeat(2100)) } else { format!("mb{}", idx) };
+            let payload = if big { format!("mb{}:{}", idx, "x".repeat(payload_len)) } else { format!("mb{}", idx) };
             if idx % 7 == 3 {
                 do_write(&mut st, &mut m, &mut j, Op::Commit((1, idx.saturating_sub(1))), &mut nrec)?;
             } else {
@@ -226,7 +228,12 @@ pub fn run_one_x(seed: u64) -> Result<(Vec<Viol>, u64, u64), String> {
                 }
             });
             if let Some(e) = flush_err {
-                return Err(format!("blocked flush failed: {}", e));
+                // no I/O error was injected: a flush call that fails (instead of waiting for room in the queue) will
+                // never invoke its callback. Carry on: what the following flushes acknowledge is judged below.
+                viols.push(v("C04", "flush_call_failed:queue_full", format!("{} requests were queued behind a parked worker; one more flush(callback) returned Err({}) although no I/O error occurred: its callback is never invoked", queued, e), seed));
+                if let Some(f) = flushes.last_mut() {
+                    f.call_ok = false;
+                }
             }
         }
         // release
@@ -269,6 +276,22 @@ pub fn run_one_x(seed: u64) -> Result<(Vec<Viol>, u64, u64), String> {
                 None => viols.push(v("C11", "files_not_suffix", format!("unexpected chunk file {}", id), seed)),
             }
         }
+        // --- C03 / C05: the process dies now (every completed call kept): everything was acknowledged, so recovery must
+        // succeed and show all of it
+        if !lost {
+            let idir = crate::props::crash::ImageDir::new("maxbatch-crash");
+            let (res, _) = crate::props::image::open_and_read(&idir, &img, &cfg);
+            match res {
+                crate::props::image::Opened::Ok { state, entries: Ok(es) } => {
+                    if state != m.st || es != m.entries() {
+                        viols.push(v("C03", "acked_write_lost:process_crash_after_full_queue", format!("{} flushes were queued, drained and acknowledged; a process crash at this point recovers state {:?} with {} entries, acknowledged: {:?} with {} entries", queued, state, es.len(), m.st, m.entries().len()), seed));
+                    }
+                }
+                crate::props::image::Opened::Ok { entries: Err(e), .. } => viols.push(v("C05", "read_error_after_recovery:full_queue", format!("recovery after a process crash following the drained full queue: read failed: {}", e), seed)),
+                crate::props::image::Opened::Err(e) => viols.push(v("C05", "open_err:after_full_queue", format!("{} flushes were queued, drained and acknowledged; after a process crash at this point open() refuses: {}", queued, e), seed)),
+                crate::props::image::Opened::Panic(p) => viols.push(v("C05", "open_panic:after_full_queue", p, seed)),
+            }
+        }
         if lost {
             // wait_worker_idle() and a joining drop would still work (the channel is empty), but the seq accounting is off:
             // stop here, the later steps wait for "idle"
@@ -292,6 +315,25 @@ pub fn run_one_x(seed: u64) -> Result<(Vec<Viol>, u64, u64), String> {
                 Outcome2::Ok(e) => viols.push(v("C07", "read_wrong", format!("{} after the chunk was closed and the cache drained: {}", how, crate::props::seq::diff_entries(&e, &m.entries())), seed)),
                 Outcome2::Err(e) => viols.push(v("C07", "read_error:io", format!("{} after the chunk was closed and the cache drained failed: {}", how, e), seed)),
                 Outcome2::Panic(p) => viols.push(v("C07", "read_error:panic", format!("{} panicked: {}", how, p), seed)),
+            }
+        }
+        // --- C04 once more, now including the flush that followed the full queue
+        {
+            let tr_now: Trace = {
+                let g = trace::lock();
+                let t = g.as_ref().unwrap();
+                Trace { prefix: t.prefix.clone(), paths: t.paths.clone(), path_ix: t.path_ix.clone(), evs: t.evs.clone(), faults: vec![], counters: t.counters, pread_calls: t.pread_calls, pread_bytes: t.pread_bytes, read_calls: t.read_calls }
+            };
+            let dummy = SchedCase { hist: HistCase { seed, hist: 0, cfg: cfg.clone(), steps: vec![], tags: vec![], plan: "C04".into(), create_fault: None }, sched: vec![], faults: vec![], reader_steps: vec![], gate_acks: false };
+            let rr = RunRec { trace: tr_now, steps: vec![], flushes: flushes.clone(), models: vec![], recs: vec![], worker_dead: false, faults_fired: 0, completed_steps: 0, stall_points: 0, dir: dir.clone(), final_cfg: cfg.clone(), stop_reason: String::new() };
+            let mut s4 = c04::C04Stats::default();
+            for mut vi in c04::check(&dummy, &rr, &mut s4) {
+                if viols.iter().any(|x| x.sig == vi.sig) {
+                    continue;
+                }
+                vi.text = format!("full-queue scenario, after the flush that followed it: {}", vi.text);
+                vi.replay = json!({"kind": "maxbatch", "seed": seed.to_string()});
+                viols.push(vi);
             }
         }
         // --- C02: clean restart
